@@ -71,6 +71,14 @@ func c17GenSet(seed int64, idx int, tag string) *yang.ModSet {
 	for _, m := range ms.Mods {
 		walk(m)
 	}
+	// string types with two pattern statements in one type statement (a value must match both), as a leaf
+	// and as a list key
+	if top := c14Top(ms.Mods[0]); top != nil {
+		top.Add(yang.S("leaf", "two-pat", yang.S("type", "string", yang.S("pattern", "t.*"), yang.S("pattern", ".*e"))),
+			yang.S("list", "two-pat-list", yang.S("key", "name"),
+				yang.S("leaf", "name", yang.S("type", "string", yang.S("pattern", "[a-z]+"), yang.S("pattern", "a.*"))),
+				yang.S("leaf", "weight", yang.S("type", "uint8"))))
+	}
 	// key words written with the prefix of the list's own module (node-identifier = [prefix ":"] identifier)
 	for _, m := range ms.Mods {
 		pf := m.Find("prefix").Arg
